@@ -42,7 +42,7 @@ from .libelefun import (\
     mpf_exp, mpf_log, mpf_pow, mpf_cosh,
     mpf_cos_sin, mpf_cosh_sinh, mpf_cos_sin_pi, mpf_cos_pi, mpf_sin_pi,
     ln_sqrt2pi_fixed, mpf_ln_sqrt2pi, sqrtpi_fixed, mpf_sqrtpi,
-    cos_sin_fixed, exp_fixed
+    cos_sin_fixed, exp_fixed, mpf_round_approx
 )
 
 from .libmpc import (\
@@ -1725,6 +1725,22 @@ def complex_stirling_series(x, y, prec):
 
 def mpf_gamma(x, prec, rnd='d', type=0):
     """
+    Gamma function and relatives, see mpf_gamma_approx. The evaluation
+    rounds a working-precision approximation; for floor/ceiling rounding
+    (interval arithmetic) a rigorous bound is obtained by evaluating
+    with 10 extra bits and moving the result by more than its error
+    in the direction of rounding. Integer arguments, for which the
+    result can be exact, are left to the direct evaluation.
+    """
+    if rnd not in (round_floor, round_ceiling) or (not x[1]) or x[2] >= 0:
+        return mpf_gamma_approx(x, prec, rnd, type)
+    v = mpf_gamma_approx(x, prec+10, round_nearest, type)
+    if not v[1]:
+        return v
+    return mpf_round_approx(v, prec+8, prec, rnd)
+
+def mpf_gamma_approx(x, prec, rnd='d', type=0):
+    """
     This function implements multipurpose evaluation of the gamma
     function, G(x), as well as the following versions of the same:
 
@@ -1797,7 +1813,7 @@ def mpf_gamma(x, prec, rnd='d', type=0):
 
     # From now on, we assume having a gamma function
     if type == 1:
-        return mpf_gamma(mpf_add(x, fone), prec, rnd, 0)
+        return mpf_gamma_approx(mpf_add(x, fone), prec, rnd, 0)
 
     # Special case integers (those not small enough to be caught above,
     # but still small enough for an exact factorial to be faster
@@ -1930,6 +1946,21 @@ def mpf_gamma(x, prec, rnd='d', type=0):
 
 
 def mpc_gamma(z, prec, rnd='d', type=0):
+    """
+    Complex gamma function and relatives, see mpc_gamma_approx. With
+    floor/ceiling rounding both parts are rigorous bounds (the error of
+    the approximation is relative to the larger part).
+    """
+    if rnd not in (round_floor, round_ceiling) or z[1] == fzero:
+        return mpc_gamma_approx(z, prec, rnd, type)
+    re, im = mpc_gamma_approx(z, prec+10, round_nearest, type)
+    if (not re[1] and re[2]) or (not im[1] and im[2]):
+        return re, im
+    mag = max([t[2]+t[3] for t in (re, im) if t[1]] or [0])
+    eps = (int(rnd == round_floor), MPZ_ONE, mag-prec-8, 1)
+    return mpf_add(re, eps, prec, rnd), mpf_add(im, eps, prec, rnd)
+
+def mpc_gamma_approx(z, prec, rnd='d', type=0):
     a, b = z
     asign, aman, aexp, abc = a
     bsign, bman, bexp, bbc = b
@@ -1977,7 +2008,7 @@ def mpc_gamma(z, prec, rnd='d', type=0):
 
     # From now on, we assume having a gamma function
     if type == 1:
-        return mpc_gamma((mpf_add(a, fone), b), prec, rnd, 0)
+        return mpc_gamma_approx((mpf_add(a, fone), b), prec, rnd, 0)
 
     an = abs(to_int(a))
     bn = abs(to_int(b))
